@@ -771,11 +771,12 @@ def c06(tr, acc, case):
     for b in tr.bodies():
         if b["step"] == "work":
             groups[b["uid"]].append(b)
+    queued = bool((spec.get("meta") or {}).get("queued"))
     for bodies in groups.values():
-        _c06_one(acc, case, pol, bodies)
+        _c06_one(acc, case, pol, bodies, queued)
 
 
-def _c06_one(acc, case, pol, bodies):
+def _c06_one(acc, case, pol, bodies, queued=False):
     for k in range(1, len(bodies)):
         prev, nxt = bodies[k - 1], bodies[k]
         if prev["t1"] is None:
@@ -784,6 +785,17 @@ def _c06_one(acc, case, pol, bodies):
         doc = doc_delay(pol["wait"], k)
         acc.hit("retry_gap_eval")
         acc.hit("gap_kind_" + pol["wait"]["k"])
+        if queued:
+            acc.hit("retry_gap_eval_with_queueing")
+            if gap > doc + EPS:
+                acc.hit("retry_waited_in_the_step_queue")
+            if gap < doc - EPS:
+                # the known off-by-one indexing of the strategy (open finding) explains a short gap only where the NEXT index documents
+                # a shorter delay and the gap respects that one
+                shifted = doc_delay(pol["wait"], k + 1)
+                acc.violation({"mech": "retry_started_earlier_than_documented", "index_shift": bool(shifted < doc - EPS and gap >= shifted - EPS), "queued": True},
+                              f"retry #{k} started {gap}s after failure #{k} (step with 1 worker and a queue); wait strategy documents at least {doc}s; wait={pol['wait']}", case)
+            continue
         shifted = doc_delay(pol["wait"], k + 1)  # what a strategy indexed one attempt too far would give
         shift = abs(gap - shifted) <= EPS and abs(shifted - doc) > EPS
         if gap < doc - EPS:
